@@ -120,10 +120,35 @@ def run_history(desc, h, shared=True):
     return out
 
 
+def isolated_groups(op, ov):
+    """what generate_all must contain per group when every sample list is computed on its own, with the flag of its use"""
+    groups = []
+    for p in op.parameters:
+        s = G.SampleCache().add(copy.deepcopy(p.schema), False)
+        valid = (ov or {}).get(p.name, s.valid)
+        omit = "-" if p.position == ParameterPosition.PATH else ("0" if p.required else "1")
+        groups.append("%s.%s/o%s/v%s/i%s" % (p.name, p.position.value, omit, graphs.ints(jtext(v) for v in valid), graphs.ints(jtext(v) for v in s.invalid)))
+    if op.request_body:
+        s = G.SampleCache().add(copy.deepcopy(op.request_body.schema), True)
+        groups.append("body/o%s/v%s/i%s" % ("0" if op.request_body.required else "1", graphs.ints(jtext(v) for v in s.valid), graphs.ints(jtext(v) for v in s.invalid)))
+    return "ok:" + ";".join(groups)
+
+
 def oracle(desc, h):
     a = run_history(desc, h, shared=True)
     b = run_history(desc, h, shared=False)
     res = []
+    ops = fresh_ops(desc)
+    for i, (kind, oi, o) in enumerate(h):
+        if kind == "all" and a[i].startswith("ok:"):
+            try:
+                want = isolated_groups(ops[oi], o)
+            except Exception:  # noqa
+                continue
+            if want != a[i]:
+                res.append(("body-parameter-mixup", "call %d (generate_all on op %d): groups %s, but computing every sample list on its own (parameters with is_body=False, "
+                            "the body with is_body=True) gives %s" % (i, oi, a[i][:300], want[:300]), {"call": i}))
+                return res
     for i, (x, y) in enumerate(zip(a, b)):
         if x != y:
             res.append(("cache-not-transparent", "call %d (%s on op %d, overrides %r): with the used cache %s, with a fresh cache %s" % (
@@ -206,7 +231,7 @@ def run(pid, tier):
         ck.violation("coq-obligation", "coq/Properties/C18.v no longer checks: %s" % ck.obl["log"][-300:],
                      {"theorem": ck.obl["file"]}, found_input=False)
     rng = random.Random(ck.seed * 101 + 3)
-    n_desc = 25 if tier == "quick" else 400
+    n_desc = 40 if tier == "quick" else 400
     stats = {"calls": 0, "with_overrides": 0, "generate_one_valid": 0, "ops_with_body": 0, "error_calls": 0}
     lines, expect, meta = [], [], []
     for d in range(n_desc):
